@@ -68,7 +68,9 @@ func genStruct(rt *rapid.T, st *StructT, o GenOpts, depth int) *StructV {
 		if f.HasDef && rapid.IntRange(0, 2).Draw(rt, "usedefault") == 0 {
 			// the declared default as the object holds it; a literal that leaves out
 			// required struct fields is not a value a reader accepts: draw another
-			if d := WireForm(f.Type, f.Default, 0); Readable(f.Type, d) {
+			// (and one that leaves out any non-optional struct field is a nil pointer there: what it
+			// means on the wire differs between the write and the read direction)
+			if d := WireForm(f.Type, f.Default, 0); Readable(f.Type, d) && Equal(d, WireForm(f.Type, d, 0)) && Equal(Normalise(f.Type, d), Normalise(f.Type, f.Default)) {
 				v.F[f.ID] = d
 				continue
 			}
@@ -146,7 +148,7 @@ func genValue(rt *rapid.T, t *Type, o GenOpts, depth int, unique bool) V {
 			if e == nil {
 				continue
 			}
-			if t.Kind == Set && contains(l.E, e) {
+			if t.Kind == Set && containsNorm(t.Elem, l.E, e) {
 				continue
 			}
 			l.E = append(l.E, e)
@@ -160,7 +162,7 @@ func genValue(rt *rapid.T, t *Type, o GenOpts, depth int, unique bool) V {
 		n := rapid.IntRange(0, o.maxLen()).Draw(rt, "len")
 		for i := 0; i < n; i++ {
 			k := genValue(rt, t.Key, o, depth-1, true)
-			if k == nil || contains(m.K, k) {
+			if k == nil || containsNorm(t.Key, m.K, k) {
 				continue
 			}
 			e := genValue(rt, t.Elem, o, depth-1, unique)
@@ -219,6 +221,18 @@ func minimalStruct(st *StructT, fuel int) V {
 		v.F[f.ID] = Zero(f.Type)
 	}
 	return v
+}
+
+// containsNorm: equality of set elements and map keys is equality of what the
+// generated code sees (an optional field holding its default is unset, -0 is 0).
+func containsNorm(t *Type, vs []V, v V) bool {
+	n := Normalise(t, v)
+	for _, x := range vs {
+		if Equal(Normalise(t, x), n) {
+			return true
+		}
+	}
+	return false
 }
 
 func contains(vs []V, v V) bool {
